@@ -308,8 +308,15 @@ pub fn run_grevm(
                 // that was unparked but has not been scheduled yet still counts as parked, so the
                 // wait is measured in scheduling canaries rather than in time alone: three times a
                 // fresh thread (made runnable after whatever woke the coordinator) must have run.
+                // If a notify() that found the registered thread was issued to a parked coordinator
+                // after it entered park, that coordinator *will* wake up unless notify() itself is
+                // broken: what looks like a stall is then almost certainly scheduling latency (a
+                // woken thread sitting on a starved CPU was seen to wait for seconds on this VM),
+                // so the confirmation is ten times longer.
+                let woken = (2..4).any(|role| o.parked[role].load(Ordering::Relaxed) > 0 && o.notified_since_park[role].load(Ordering::Relaxed));
+                let rounds = if woken { 40 } else { 3 };
                 let mut confirmed = true;
-                for _ in 0..3 {
+                for _ in 0..rounds {
                     std::thread::scope(|cs| {
                         cs.spawn(|| std::hint::black_box(()));
                     });
